@@ -92,6 +92,16 @@ def analyse(facts, tier):
     pe = facts.fn(SEQ + '::processEvents')
     cfg = pe.cfg
     heads = ano_loops(pe)
+    # a call of a local helper whose body is such a loop (on every path from its entry) is an All-Notes-Off point as well
+    call_heads = {}
+    for b, j, st in cfg.stmts():
+        for x in calls_in(st['s']):
+            for cf in facts.fns.get(callee_name(x), [])[:1]:
+                if is_local_helper(pe, cf):
+                    hh = ano_loops(cf)
+                    if hh and any(('b', h_) in (cf.cfg.pdom().get(('b', cf.cfg.entry)) or ()) or h_ == cf.cfg.entry for h_ in hh):
+                        call_heads[b] = (b, j, st)
+    heads = heads + [b for b in call_heads if b not in heads]
     dom, pdom = cfg.dom(), cfg.pdom()
     # ---- R1
     n = 0
@@ -125,6 +135,8 @@ def analyse(facts, tier):
                         # the conditions under which the loop runs: guard facts of a statement of its body, minus those the jump shares
                         body = [(bb, jj, ss) for bb, jj, ss in cfg.stmts() if any('callee_e' in y and mentions(y['callee_e'], member_named('rt_controllerChange')) for y in walk(ss['s']))
                                 and h in [e['block'] for e in cfg.dominating_edges(bb)]]
+                        if h in call_heads:
+                            body = [call_heads[h]]
                         if not body:
                             continue
                         ga = [f for f in guard_facts(pe, body[0][0], body[0][2], loops=False) if fact_str(f) not in have]
@@ -239,8 +251,8 @@ def r4(facts):
         for x in walk(st['s']):
             ap = assign_parts(x)
             if ap and strip(ap[0]).get('k') == 'MemberExpr' and short(strip(ap[0])['n']) == 'subtype' and const_of(ap[1]) == enum.get('ST_LOOPSTART'):
-                gf = guard_facts(pv, b, st)
-                if any(f[0] == 'case' and 111 in f[2] for f in gf):
+                gf = with_case_facts(pv, guard_facts(pv, b, st))
+                if any(f[0] == 'case' and 111 in f[2] and mentions(f[1], member_named('data')) for f in gf):
                     cc = True
     out.append(Obl('C09.R4', pv.name, 'CC111 -> loop start', pv.loc, 'discharged' if cc else 'finding', why='case 111 assigns ST_LOOPSTART' if cc else 'controller 111 is not mapped to the loop start event'))
 
@@ -400,12 +412,12 @@ def r7_idempotent(facts):
             gf = guard_facts(pv, b, st)
             reads = set()
             case = None
-            for f in gf:
+            for f in with_case_facts(pv, gf):
                 body = f[1] if f[0] in ('truth', 'case') else ([f[2], f[3]] if f[0] == 'cmp' else [])
                 for y in walk(body):
                     if y.get('k') == 'MemberExpr' and strip(y.get('b')).get('k') == 'CXXThisExpr':
                         reads.add(short(y['n']))
-                if f[0] == 'case' and len(f[2]) == 1:
+                if f[0] == 'case' and len(f[2]) == 1 and mentions(f[1], member_named('data')):     # the controller number: first data byte of the event
                     case = list(f[2])[0]
             # stores of members in the same arm = statements of blocks with the same guard facts
             key = sorted(fact_str(f) for f in gf)
